@@ -391,7 +391,19 @@ func (req *SrvReq) Respond() {
 		req.Rc.Type = 0
 	}
 
-	/* remove the request and all requests flushing it */
+	if rop, ok := (req.Conn.Srv.ops).(SrvReqProcessOps); ok {
+		rop.SrvReqRespond(req)
+	} else {
+		req.PostProcess()
+	}
+
+	if (status & reqFlush) == 0 {
+		conn.reqout <- req
+	}
+
+	/* remove the request and all requests flushing it; only now that the
+	   reply is queued, so that a Tflush (or a request reusing the tag) that
+	   no longer finds the request cannot be answered ahead of the reply */
 	conn.Lock()
 	nextreq := req.prev
 	if nextreq != nil {
@@ -416,16 +428,6 @@ func (req *SrvReq) Respond() {
 		flushreqs = req.flushreq
 	}
 	conn.Unlock()
-
-	if rop, ok := (req.Conn.Srv.ops).(SrvReqProcessOps); ok {
-		rop.SrvReqRespond(req)
-	} else {
-		req.PostProcess()
-	}
-
-	if (status & reqFlush) == 0 {
-		conn.reqout <- req
-	}
 
 	// process the next request with the same tag (if available)
 	if nextreq != nil {
